@@ -22,7 +22,8 @@ DISPATCHING = {
     "numpy.isfinite", "numpy.isnan", "numpy.clip", "numpy.power", "numpy.maximum", "numpy.minimum", "numpy.tile", "numpy.repeat",
     "numpy.pad", "numpy.diff", "numpy.cumsum", "numpy.prod", "numpy.max", "numpy.min", "numpy.log", "numpy.log10", "numpy.vstack",
     "numpy.hstack", "numpy.dstack", "numpy.atleast_1d", "numpy.atleast_2d", "numpy.ravel", "numpy.einsum", "numpy.tensordot",
-    "numpy.dot", "numpy.matmul", "numpy.median", "numpy.var", "numpy.std", "numpy.nan_to_num",
+    "numpy.dot", "numpy.matmul", "numpy.median", "numpy.var", "numpy.std", "numpy.nan_to_num", "numpy.zeros_like", "numpy.ones_like",
+    "numpy.empty_like", "numpy.full_like",
 }
 # callables that never look at element values
 METADATA_ONLY = {"numpy.iscomplexobj", "numpy.isrealobj", "numpy.shape", "numpy.ndim", "numpy.result_type", "numpy.can_cast",
